@@ -1250,6 +1250,14 @@ int32 matrixRegisterSession(ssl_t *ssl)
         SSL_HS_MASTER_SIZE);
     g_sessionTable[i].cipher = ssl->cipher;
     g_sessionTable[i].inUse += 1;
+    /* The id is about to be sent in the ServerHello, long before this
+       handshake has authenticated anything: the entry stays unusable for
+       resumption until the client's Finished has been verified (see
+       matrixUpdateSession). Otherwise a second connection could resume it
+       with the still all-zero master secret, or - after the
+       ClientKeyExchange - with the real one although the handshake that
+       created it (client authentication included) never completed. */
+    g_sessionTable[i].pending = 1;
 /*
     The sessionId is the current serverRandom value, with the first 4 bytes
     replaced with the current cache index value for quick lookup later.
@@ -1331,6 +1339,7 @@ int32 matrixClearSession(ssl_t *ssl, int32 remove)
         Memset(g_sessionTable[i].masterSecret, 0x0, SSL_HS_MASTER_SIZE);
         g_sessionTable[i].extendedMasterSecret = 0;
         g_sessionTable[i].cipher = NULL;
+        g_sessionTable[i].pending = 0;
     }
     psUnlockMutex(&g_sessionTableLock);
     return PS_SUCCESS;
@@ -1366,7 +1375,8 @@ int32 matrixResumeSession(ssl_t *ssl)
 
     i = ((uint32) id[3] << 24) + (id[2] << 16) + (id[1] << 8) + id[0];
     psLockMutex(&g_sessionTableLock);
-    if (i >= SSL_SESSION_TABLE_SIZE || g_sessionTable[i].cipher == NULL)
+    if (i >= SSL_SESSION_TABLE_SIZE || g_sessionTable[i].cipher == NULL ||
+        g_sessionTable[i].pending)
     {
         psUnlockMutex(&g_sessionTableLock);
         return PS_LIMIT_FAIL;
@@ -1483,6 +1493,12 @@ int32 matrixUpdateSession(ssl_t *ssl)
     Memcpy(g_sessionTable[i].masterSecret, ssl->sec.masterSecret,
         SSL_HS_MASTER_SIZE);
     g_sessionTable[i].cipher = ssl->cipher;
+    if (ssl->hsState == SSL_HS_DONE)
+    {
+        /* The client's Finished of the handshake that owns this entry has
+           been verified: the session is established and may be resumed. */
+        g_sessionTable[i].pending = 0;
+    }
     psUnlockMutex(&g_sessionTableLock);
     return PS_SUCCESS;
 }
